@@ -37,5 +37,9 @@ RECURSIVE SubsetsUpTo(_, _)
 SubsetsUpTo(S, k) == IF k = 0 THEN {{}}
                      ELSE LET P == SubsetsUpTo(S, k - 1) IN P \cup {T \cup {x} : T \in P, x \in S}
 
+(* all orderings of a finite set, as sequences (n! of them, built recursively) *)
+RECURSIVE PermSeqs(_)
+PermSeqs(X) == IF X = {} THEN {<<>>} ELSE UNION {{<<x>> \o p : p \in PermSeqs(X \ {x})} : x \in X}
+
 SeqIsSet(s) == \A i, j \in DOMAIN s : i # j => s[i] # s[j]
 =============================================================================
